@@ -18,7 +18,7 @@ FRAGMENT = {
                'Sync points: after a pair ending in a space, a spacing attribute, PAC, CR (roll-up/text), DER, EDM, EOC, TR, a style-changing or shrinking RUx; '
                'NOT after BS, TO, transparent space, RCL/RDC/RTD (caption.c updates word-granularly; the statement allows that). Event clause: >=1 '
                'VBI_EVENT_CAPTION between two sync points at which the compared projection of the model differs. Cross-talk clause: a page that changes in a '
-               'frame that did not address its channel must afterwards equal the model completely. LENIENCIES: margin columns 0/33 (the library's room for the legibility space) hold no character and on caption channels may be solid only next to, or formerly next to, a character in column 1 / 32; a cell empty '
+               'frame that did not address its channel must afterwards equal the model completely. LENIENCIES: margin columns 0/33 (room for the legibility space) hold no character and on caption channels may be solid only next to, or formerly next to, a character in column 1 / 32; a cell empty '
                'in the model may be a solid blank when it is/was next to a character (15.119(d) legibility space); attributes of blanks not compared; '
                'attributes of characters written after BS, after CR without PAC (non-default pen), after a PAC/TO into a row that already holds characters are '
                'not compared (15.119(h) vs EIA-608 Annex C.7/C.14); roll-up base row too near the top: window shifted down (Annex C.4). NOT GENERATED '
